@@ -401,7 +401,15 @@ def check_cluster_property(run, props_file, cone, oracles, kills=False, quick=(1
             from . import refine as refine_mod
             # quick tier: refine a seeded-stable subset (the Coq replay dominates the running time)
             lim = len(cases) if thorough_t else 110
-            refine_mod.validate_refinement(run, cases[-lim:], outs[-lim:], broken)
+            rc, ro = [], []
+            for c, o in zip(cases[-lim:], outs[-lim:]):
+                # an execution that shows the known finding 'leader-appends-beyond-hole-after-conflict-truncation' (a leader log
+                # with a hole) has no counterpart in the abstract system: it is reported by the oracle, not replayed
+                v = None if isinstance(o, str) else log_matching(c, o)
+                if v and v[0] == 'leader-appends-beyond-hole-after-conflict-truncation':
+                    run.cov['not_replayed_known_leader_log_hole'] = run.cov.get('not_replayed_known_leader_log_hole', 0) + 1; continue
+                rc.append(c); ro.append(o)
+            refine_mod.validate_refinement(run, rc, ro, broken)
         dist['terms-with-a-leader'] = sum(len(leaders_by_term(o)) for o in outs if not isinstance(o, str))
         dist['max-commit-sum'] = sum(max(nd[2] for obs, _ in o for nd in obs) for o in outs if not isinstance(o, str))
         run.add_cases(ok, len({json.dumps(c) for c in cases}), [{'n': cases[0][0], 'cap': cases[0][1], 'schedule': cases[0][2][:12]}], dist,
